@@ -515,7 +515,9 @@ type vfCountingServerStream struct {
 }
 
 func vfRoutingTable(res *vrt.Result) (evals, nontrivial int64) {
-	for _, local := range []string{"present", "closed", "absent"} {
+	// "replaced": a second local stream for the shard registered its channels while the first one's were still there,
+	// then the first one's deferred cleanup ran (with its own channels): the local stream that exists is the second
+	for _, local := range []string{"present", "closed", "absent", "replaced"} {
 		for _, remote := range []string{"owner-with-stream", "owner-peer-without-stream", "owner-peer-with-sibling-streams-only", "owner-unknown-peer", "unknown", "owner-without-address"} {
 			for _, kind := range []string{"message", "ack", "ack-noforward"} {
 				tc := vfRouteCase{local, remote, kind}
@@ -548,6 +550,14 @@ func vfRoutingTable(res *vrt.Result) (evals, nontrivial int64) {
 						close(ackCh)
 						sm.SetRemoteSendChan(target, msgCh)
 						sm.SetLocalAckChan(source, ackCh)
+					case "replaced":
+						oldMsg, oldAck := make(chan RoutedMessage, 2), make(chan RoutedAck, 2)
+						sm.SetRemoteSendChan(target, oldMsg)
+						sm.SetLocalAckChan(source, oldAck)
+						sm.SetRemoteSendChan(target, msgCh)
+						sm.SetLocalAckChan(source, ackCh)
+						sm.RemoveRemoteSendChan(target, oldMsg)
+						sm.RemoveLocalAckChan(source, oldAck)
 					}
 					if remote != "unknown" {
 						st := NodeShardState{NodeName: "n2", Shards: map[string]ShardInfo{ClusterShardIDtoShortString(addressed): {ID: addressed, Created: time.Now()}}, Updated: time.Now()}
@@ -594,7 +604,7 @@ func vfRoutingTable(res *vrt.Result) (evals, nontrivial int64) {
 							got = sm.DeliverAckToShardOwner(source, &RoutedAck{TargetShard: target, Req: &adminservice.StreamWorkflowReplicationMessagesRequest{}}, shutdown, log.NewNoopLogger(), 7, kind == "ack")
 						}
 					}()
-					if local == "present" {
+					if local == "present" || local == "replaced" {
 						localN = len(msgCh) + len(ackCh)
 					}
 					ss.cancel()
@@ -615,7 +625,7 @@ func vfRoutingTable(res *vrt.Result) (evals, nontrivial int64) {
 					res.Violate("routing/reported-undelivered-but-handed-over/"+kind+"/"+remote, fmt.Sprintf("case %+v: the call returned false, yet %d local and %d remote copies were handed over", tc, localN, remoteN), replay)
 				}
 				// local first; otherwise the known remote owner; undelivered when neither exists
-				wantLocal := local == "present"
+				wantLocal := local == "present" || local == "replaced"
 				wantRemote := !wantLocal && remote == "owner-with-stream" && kind != "ack-noforward"
 				if !got {
 					nontrivial++
@@ -1042,7 +1052,7 @@ func TestVerifC09(t *testing.T) {
 	res.Set("routing_table_cases", rEvals)
 	res.Set("routing_table_cases_undelivered_or_inconsistent", rNon)
 	res.Set("exhaustive", exhaustive)
-	res.Set("explanation", "convergence: every transition calls the real RegisterShard / UnregisterShard / shardDelegate.NotifyMsg / MergeRemoteState / LocalState / shardEventDelegate.NotifyLeave of 2-3 real shardManagerImpl instances; announcements, state snapshots and leave notifications are in-flight objects the explorer delivers in every order, at most one duplicate each; from every state everything in flight is delivered, live pairs exchange fresh state, and the ownership oracle is evaluated. routing: every combination of {local stream present, closed-but-registered, absent} x {remote owner with stream, owner's peer known without a stream for this pair, owner's peer with streams in both directions for sibling pairs only (other target / other source), owner without any peer state, unknown, owner without a configured address} x {message, ack with forwarding, ack without} through the real DeliverMessagesToShardOwner / DeliverAckToShardOwner with fake intra-proxy streams; routing histories: every sequence (depth 4, thorough 5) of {a peer's snapshot claims the shard, no longer claims it, a peer leaves} for two peers with live intra-proxy streams, a message and an ack routed after every event: exactly one copy to a current claimant, or reported undelivered when there is none; forwarded acknowledgements: the real intraProxyStreamSender.recvAck loop on a scripted stream (two acknowledgements, end of stream) x {local stream present, removed after the first, closed, absent} x {remote owner with a stream, owner without peer state, unknown}: handed to the local stream, never forwarded again, and the stream ends with an error at the first acknowledgement nobody takes")
+	res.Set("explanation", "convergence: every transition calls the real RegisterShard / UnregisterShard / shardDelegate.NotifyMsg / MergeRemoteState / LocalState / shardEventDelegate.NotifyLeave of 2-3 real shardManagerImpl instances; announcements, state snapshots and leave notifications are in-flight objects the explorer delivers in every order, at most one duplicate each; from every state everything in flight is delivered, live pairs exchange fresh state, and the ownership oracle is evaluated. routing: every combination of {local stream present, closed-but-registered, absent, replaced by a second stream whose predecessor's cleanup ran afterwards} x {remote owner with stream, owner's peer known without a stream for this pair, owner's peer with streams in both directions for sibling pairs only (other target / other source), owner without any peer state, unknown, owner without a configured address} x {message, ack with forwarding, ack without} through the real DeliverMessagesToShardOwner / DeliverAckToShardOwner with fake intra-proxy streams; routing histories: every sequence (depth 4, thorough 5) of {a peer's snapshot claims the shard, no longer claims it, a peer leaves} for two peers with live intra-proxy streams, a message and an ack routed after every event: exactly one copy to a current claimant, or reported undelivered when there is none; forwarded acknowledgements: the real intraProxyStreamSender.recvAck loop on a scripted stream (two acknowledgements, end of stream) x {local stream present, removed after the first, closed, absent} x {remote owner with a stream, owner without peer state, unknown}: handed to the local stream, never forwarded again, and the stream ends with an error at the first acknowledgement nobody takes")
 	res.Sample(summary)
 	res.Assume("the sending half of an announcement (broadcastShardChange needs a live memberlist) is transcribed: one message per instance listed in the sender's remoteNodeStates, stamped with a strictly increasing clock at broadcast time; memberlist itself (reliable send, push/pull, leave detection) is the environment")
 	res.Assume("one clock for all instances (no skew); a claim (RegisterShard + creating its announcements) is an atomic step; every instance knows every other before the first claim")
